@@ -159,7 +159,7 @@ def eval_case(case):
                 for e in doc['errors']:
                     if e['mismatched_field'] in TITLE.values():
                         c = [k for k, v in TITLE.items() if v == e['mismatched_field']][0]
-                        if e['actual'] != lists[c] or e['expected_required'] != case['lists'][c]:
+                        if e['actual'] != (lists[c] or ['']) or e['expected_required'] != (case['lists'][c] or ['']):      # an empty name-list is shown as one empty name
                             fails.append(['drift-error-content', '%s: %r' % (label, e)])
     finally:
         try:
@@ -203,7 +203,7 @@ def strat_peer():
             case['enc_c'] = case['lists']['enc'][::-1] + ['aes128-ctr']
             case['mac_c'] = ['hmac-sha2-512'] + case['lists']['mac']
         return case
-    return st.tuples(st.lists(nm('kex'), min_size=1, max_size=5), st.lists(nm('key'), min_size=0, max_size=3), st.lists(nm('enc'), min_size=1, max_size=5), st.lists(nm('mac'), min_size=1, max_size=5),
+    return st.tuples(st.lists(nm('kex'), min_size=1, max_size=5), st.lists(nm('key'), min_size=0, max_size=3), st.lists(nm('enc'), min_size=1, max_size=5), st.one_of(st.lists(nm('mac'), min_size=1, max_size=5), st.lists(nm('mac'), min_size=1, max_size=5), st.lists(nm('mac'), min_size=1, max_size=5), st.just([])),
                      st.one_of(st.none(), st.sampled_from(PROBE_KEX), st.sampled_from(PROBE_KEX)), st.lists(st.sampled_from(['ssh-rsa', 'rsa-sha2-512', 'rsa-sha2-256', 'ssh-ed25519', RSA_CERT, ED_CERT]), min_size=1, max_size=4, unique=True),
                      st.sampled_from(['server', 'server', 'server', 'client']), st.sampled_from([2048, 3072, 4096]), st.sampled_from([2048, 3072, 4096]), st.sampled_from(['rsa', 'rsa', 'ed25519']), st.sampled_from([2048, 3072, 4096]),
                      st.sampled_from([2048, 3072, 4096]), st.booleans()).map(build)
@@ -212,7 +212,7 @@ def strat_peer():
 def valid_case(case):
     if case.get('kind') != 'roundtrip':
         return True
-    return all(len(case['lists'][c]) >= 1 for c in CATS)
+    return all(len(case['lists'][c]) >= 1 for c in CATS if c != 'mac')      # an empty MAC list is what an AEAD-only peer sends
 
 
 def run(ctx):
